@@ -833,7 +833,8 @@ def impl_sqanti_rows(kw):
         pr.add_read_info(ra)
         p = pr.output_file.getvalue()[pos:].rstrip("\n").split("\t")
         # the two bases "NA" at a contig end are a legal downstream sequence of a stranded model: only a '.' row prints the marker
-        seq = na(p[38]) if strand not in ("+", "-") else p[38]
+        # (the marker comes with an NA percentage: '.' rows, rows without a loaded reference; a sequence comes with a number)
+        seq = None if (p[38] == "NA" and p[37] == "NA") else p[38]
         out.append([na(p[16]), seq, None if p[37] == "NA" else round(float(p[37]), 9)])
     res = {"out": out, "memo": _memo(gi)}
     pr.output_file = _io.StringIO()      # __del__ closes it
